@@ -339,4 +339,91 @@ theorem popcAux_le : ∀ k x, Bits.popcAux k x ≤ k
   | 0, _ => by simp [Bits.popcAux]
   | k + 1, x => by simp only [Bits.popcAux]; have := popcAux_le k (x / 2); omega
 theorem popc_le_64 (x : Nat) : Bits.popc x ≤ 64 := popcAux_le 64 x
+
+/-! ## the tail loop -/
+
+theorem mapB_mod (g : Nat → Nat) : ∀ k y, mapB g k (y % 256 ^ k) = mapB g k y
+  | 0, _ => rfl
+  | k + 1, y => by
+    simp only [mapB]
+    rw [Nat.pow_succ, Nat.mod_mul_left_mod, Nat.mod_mul_left_div_self, mapB_mod g k]
+
+theorem sumB_mod (g : Nat → Nat) : ∀ k y, sumB g k (y % 256 ^ k) = sumB g k y
+  | 0, _ => rfl
+  | k + 1, y => by
+    simp only [sumB]
+    rw [Nat.pow_succ, Nat.mod_mul_left_mod, Nat.mod_mul_left_div_self, sumB_mod g k]
+
+theorem allB_mod (p : Nat → Prop) : ∀ k y, allB p k y → allB p k (y % 256 ^ k)
+  | 0, _, _ => trivial
+  | k + 1, y, h => by
+    simp only [allB] at *
+    rw [Nat.pow_succ, Nat.mod_mul_left_mod, Nat.mod_mul_left_div_self]
+    exact ⟨h.1, allB_mod p k _ h.2⟩
+
+theorem allB_mapB (f : Nat → Nat) (p : Nat → Prop) (hf : ∀ b, b < 256 → f b < 256 ∧ p (f b)) :
+    ∀ k x, allB p k (mapB f k x)
+  | 0, _ => trivial
+  | k + 1, x => by
+    simp only [allB, mapB]
+    have := hf (x % 256) (Nat.mod_lt _ (by decide))
+    have a : (f (x % 256) + 256 * mapB f k (x / 256)) % 256 = f (x % 256) := by omega
+    have b : (f (x % 256) + 256 * mapB f k (x / 256)) / 256 = mapB f k (x / 256) := by omega
+    rw [a, b]; exact ⟨this.2, allB_mapB f p hf k _⟩
+
+/-- both nibbles of the byte are at most 4 (comment "4 0-4") -/
+def good (b : Nat) : Prop := b % 16 ≤ 4 ∧ b / 16 ≤ 4
+
+/-- popcount.c:99 `((p0 >> 4) + p0) & MAX/17` on nibble fields ≤ 4: the low nibble of every byte of (p0 >> 4) + p0 is
+    the sum of the two nibbles of that byte of p0, and no carry reaches the next byte. -/
+theorem tail_shift : ∀ k p, allB good k p →
+    mapB (fun b => b % 16) k (p / 16 + p) = mapB (fun b => (b / 16 + b) % 16) k p
+  | 0, _, _ => rfl
+  | 1, p, _ => by
+    simp only [mapB]
+    have e1 : (p / 16 + p) % 256 % 16 = (p % 256 / 16 + p % 256) % 16 := by omega
+    rw [e1]
+  | k + 2, p, h => by
+    have ih := tail_shift (k + 1) (p / 256) h.2
+    simp only [allB, good] at h
+    have e1 : (p / 16 + p) % 256 % 16 = (p % 256 / 16 + p % 256) % 16 := by omega
+    have h16 : p / 16 = p % 256 / 16 + 16 * (p / 256) := by omega
+    have hr : p / 256 = (p / 256) % 16 + 16 * (p / 256 / 16) := by omega
+    have hrr : (p / 256) % 16 = p / 256 % 256 % 16 := by omega
+    have e2 : (p / 16 + p) / 256 = p / 256 / 16 + p / 256 := by omega
+    simp only [mapB] at ih ⊢
+    rw [e2, ih, e1]
+
+theorem n4_good : ∀ b, b < 256 → n4 b < 256 ∧ good (n4 b) := by
+  intro b hb; have := n4_parts b hb; have := n4_lt b hb; exact ⟨by omega, by unfold good; omega⟩
+theorem n4_fold : ∀ b, b < 256 → (n4 b / 16 + n4 b) % 16 = pc8 b := by decide +kernel
+
+/-- popcount.c:96-99: the tail loop's per-limb value has eight byte fields, field i = popc(byte i of u) ("8 0-8") -/
+theorem tailLimb_bytes (u : Nat) (hu : u < B) : tailLimb u = mapB pc8 8 u := by
+  show (((limb4 u >>> 4) + limb4 u) % B) &&& M17 = _
+  rw [M17_rep, and_rep 0x0f (by decide), mapB_congr (fun b => b &&& 15) (fun b => b % 16) (fun b _ => and15 b), B_256,
+    mapB_mod, Nat.shiftRight_eq_div_pow, show (2:Nat) ^ 4 = 16 from rfl, limb4_bytes u hu,
+    tail_shift 8 _ (allB_mapB n4 good n4_good 8 u), mapB_comp n4 _ n4_lt]
+  exact mapB_congr _ _ n4_fold 8 u
+
+theorem fold_d (e0 e1 e2 e3 e4 e5 e6 e7 : Nat) (h0 : e0 ≤ 127) (h1 : e1 ≤ 127) (h2 : e2 ≤ 127) (h3 : e3 ≤ 127)
+    (h4 : e4 ≤ 127) (_h5 : e5 ≤ 127) (_h6 : e6 ≤ 127) (_h7 : e7 ≤ 127) :
+    (w8 e0 e1 e2 e3 e4 e5 e6 e7 / 4294967296 + w8 e0 e1 e2 e3 e4 e5 e6 e7) % 18446744073709551616 % 256 =
+      e0 + e4 := by
+  have hd : w8 e0 e1 e2 e3 e4 e5 e6 e7 / 4294967296 = w8 e4 e5 e6 e7 0 0 0 0 := by simp only [w8]; omega
+  rw [hd]; simp only [w8]; omega
+
+/-- popcount.c:109-114 on a word whose 8 byte fields are all ≤ 24 (at most 3 tail limbs, "8 0-8" each): the folds add
+    the fields without carries and the total (≤ 192) fits the byte that :114 masks out. -/
+theorem tailFin_bytes (x : Nat) (hx : x < B) (h : allB (· ≤ 24) 8 x) : tailFin x = sumB (fun b => b) 8 x := by
+  simp only [allB] at h
+  obtain ⟨h0, h1, h2, h3, h4, h5, h6, h7, _⟩ := h
+  have hx' : x % 18446744073709551616 = x := Nat.mod_eq_of_lt hx
+  have w := w8_bytes x
+  rw [hx'] at w
+  simp only [tailFin, sumB, Nat.shiftRight_eq_div_pow, and255, B, Nat.reducePow]
+  rw [w, fold_a _ _ _ _ _ _ _ _ (by omega) (by omega) (by omega) (by omega) (by omega) (by omega) (by omega) (by omega),
+    fold_b _ _ _ _ _ _ _ _ (by omega) (by omega) (by omega) (by omega) (by omega) (by omega) (by omega) (by omega),
+    fold_d _ _ _ _ _ _ _ _ (by omega) (by omega) (by omega) (by omega) (by omega) (by omega) (by omega) (by omega)]
+  omega
 end Mpir.Swar
